@@ -7,6 +7,7 @@ CONSTANTS
   MaxBlock = 2
   Kinds <- LoopKinds
   Tiny = TRUE
+  Ops = FALSE
   Rich = FALSE
 INVARIANT DesignFaithful
 INVARIANT DeviationsExplain
